@@ -679,6 +679,14 @@ where
 
         let partition_count = 1usize << (partition_order as usize);
         let partition_len = block_size / partition_count;
+        // The partitions must tile the block, and the first one must hold all the
+        // warm-up samples (RFC 9639, section 9.2.7.1).
+        if partition_len * partition_count != block_size || partition_len < warmup_length {
+            return Err(nom::Err::Error(error_position!(
+                remaining_input,
+                nom::error::ErrorKind::Verify
+            )));
+        }
 
         let mut rice_params = Vec::with_capacity(partition_count);
         let mut quotients = Vec::with_capacity(block_size);
